@@ -40,7 +40,9 @@ Leak(n, D) ==
 LeafLow(n) == [ i \in LeafIds(n) |-> <<LeafLo(n, i), LeafLo(n, i)>> ]
 Handles == {"h1", "h2"}
 Dicts(n) == {LeafLow(n)} \cup { LeafLow(n) @@ (c :> v) : c \in CompIds(n), v \in DictVals }
-QueryOps == {"evaluate", "evaluate_all", "assume", "reduce", "negate", "errors", "to_json", "to_b64", "to_poly", "flatten", "flags"}
+\* reload_b64: the handle is re-bound to the object unpacked from the object's own base64 string; by the design this is the same
+\* model (C17), so the action is a plain call: neither the store nor the bindings change
+QueryOps == {"evaluate", "evaluate_all", "assume", "reduce", "negate", "errors", "to_json", "to_b64", "to_poly", "flatten", "flags", "reload_b64"}
 CfgOps == {"cfg_poly", "default_prios", "leafs", "select"}
 IsCfg(n) == ~IsAtom(n) /\ n.cls = "StingyConfigurator"
 
